@@ -179,6 +179,23 @@ def make_symbolic(spec, name, reg, st):
                                 z3.BoolSort())
                 store.finite = lambda idx, g=g: g(*[_int(i) for i in idx])
             return view_of(store)
+        if tag == 'ufunc':      # ('ufunc', name, arity): external elementwise function (uninterpreted)
+            from .values import SFunc
+            from .prims import uf, real
+            fname, ar = spec[1], spec[2]
+
+            def call(*args, **kw):
+                arrs = [a for a in args[:ar] if isinstance(a, SArr)]
+                if arrs:
+                    from .values import snap
+                    fs = [snap(a) if isinstance(a, SArr) else None for a in args[:ar]]
+                    return SArr(arrs[0].shape,
+                                lambda idx: uf(fname, ar)(*[real(f(idx)) if f is not None
+                                                            else real(a)
+                                                            for f, a in zip(fs, args[:ar])]),
+                                'real')
+                return uf(fname, ar)(*[real(a) for a in args[:ar]])
+            return SFunc(call, fname)
         if tag == 'record':
             return SObj(spec[1], {f: make_symbolic(t, f'{name}.{f}', reg, st)
                                   for f, t in spec[2].items()})
